@@ -7,6 +7,7 @@ file was written (violations are recorded inside it); exit 2 on harness error.
 import importlib
 import json
 import os
+import signal
 import sys
 import time
 import traceback
@@ -58,13 +59,33 @@ class Stats(object):
             self.samples.append(jsonable(case))
 
 
-def run_case(sub, case, prop, known_ids, stats, curfile=None):
-    ctx = Ctx(prop, known_ids)
+class _Watchdog(BaseException):
+    pass
+
+
+def _alarm(signum, frame):
+    raise _Watchdog()
+
+
+def run_case(sub, case, prop, known_ids, stats, curfile=None, ctx=None):
+    ctx = ctx or Ctx(prop, known_ids)
     if curfile:
         with open(curfile, 'w') as f:
             json.dump({'property': prop, 'sub': sub.name, 'case': jsonable(case)}, f)
+    limit = getattr(sub, 'case_timeout', None)
     try:
-        sub.check(case, ctx)
+        if limit:
+            # only for sub-checks whose property includes termination: a case that normally takes milliseconds and is
+            # still running after `limit` seconds is reported as non-termination
+            signal.signal(signal.SIGALRM, _alarm)
+            signal.setitimer(signal.ITIMER_REAL, limit)
+        try:
+            sub.check(case, ctx)
+        except _Watchdog:
+            raise Violation('non-termination', 'case still running after %ss wall-clock (normal cases take milliseconds)' % limit)
+        finally:
+            if limit:
+                signal.setitimer(signal.ITIMER_REAL, 0)
     finally:
         stats.absorb(case, ctx)
 
@@ -114,10 +135,15 @@ def main(argv):
                 if time.time() > deadline:
                     stats.skipped += 1
                     return
+                if fail.get('hang') == case_hash(case):
+                    # do not sit through the same hang again when Hypothesis re-executes the failing example
+                    raise Violation(fail['last']['bucket'], fail['last']['msg'])
                 try:
                     run_case(sub, case, prop, known_ids, stats, curfile)
                 except Violation as v:
                     fail['last'] = {'bucket': v.bucket, 'msg': v.msg, 'case': jsonable(case)}
+                    if v.bucket == 'non-termination':
+                        fail['hang'] = case_hash(case)
                     raise
             try:
                 t()
